@@ -358,3 +358,52 @@ Print Assumptions C05_parse_gsi_uses_generated_layout.
 Print Assumptions C05_parse_tti_uses_generated_layout.
 Print Assumptions C05_gsi_bytes_uses_generated_layout.
 Print Assumptions C05_tti_bytes_uses_generated_layout.
+
+(* ---- the ignore option after a write, re-writing at document level, styled instances under display standards 1 and 2
+   (audit items).  C05_read_ignore: for EVERY file made of a GSI block and whole blocks, reading with the option is reading
+   without it with the programme start set to zero and added back to every time.  C05_write_read_*_ignore: the write->read
+   theorems for the option's other value.  C05_rewrite_keeps_timecodes_*: write d, read the file (either option value),
+   write what was read (any clock): every TTI block carries the in and out timecode bytes of the first file; holds for
+   every representable document (display standard 0 resp. any other) - no further condition: the timecode bytes do not
+   depend on the text.  (wmeta_of / witem_of: the writer's view of what the reader returned.) *)
+From Astisub Require Import Kit.IOW Model.StlIO Proofs.StlRewrite.
+Theorem C05_read_ignore : forall (gb : str) (blocks : list str) (g : gsi) d,
+  length gb = 1024%nat -> Forall (fun p => length p = 128%nat) blocks ->
+  parse_gsi gb = Ok g -> nmem (g_cct g) stl_tables_existing = true ->
+  read_stl false (gb ++ concat blocks) = Ok d -> read_stl true (gb ++ concat blocks) = Ok (unshift_doc d).
+Proof. exact read_ignore_is_unshift. Qed.
+Theorem C05_write_read_open_ignore : forall now md items, doc_repr_open now md items ->
+  exists out, write_stl now md items = Ok out /\
+              read_stl true out = Ok (unshift_doc (read_back (new_gsi now md items) expected_line items)).
+Proof. exact write_read_open_ignore. Qed.
+Theorem C05_write_read_teletext_ignore : forall now md items, doc_repr_ttx now md items ->
+  exists out, write_stl now md items = Ok out /\
+              read_stl true out = Ok (unshift_doc (read_back (new_gsi now md items) expected_ttx_line items)).
+Proof. exact write_read_ttx_ignore. Qed.
+Theorem C05_rewrite_keeps_timecodes_open : forall ign now now' md items, doc_repr_open now md items ->
+  exists d ws ws', read_stl ign (written now md items) = Ok d /\
+    stl_writes now md items = Ok ws /\ stl_writes now' (Some (wmeta_of d)) (map witem_of (rd_items d)) = Ok ws' /\
+    length ws' = length ws /\ timecode_bytes ws' = timecode_bytes ws.
+Proof. exact rewrite_keeps_timecodes_open. Qed.
+Theorem C05_rewrite_keeps_timecodes_teletext : forall ign now now' md items, doc_repr_ttx now md items ->
+  exists d ws ws', read_stl ign (written now md items) = Ok d /\
+    stl_writes now md items = Ok ws /\ stl_writes now' (Some (wmeta_of d)) (map witem_of (rd_items d)) = Ok ws' /\
+    length ws' = length ws /\ timecode_bytes ws' = timecode_bytes ws.
+Proof. exact rewrite_keeps_timecodes_ttx. Qed.
+(* styled runs (italics + underline, boxing, italics; an accented letter, the currency sign) under display standards 1 and
+   2 at 30 frames per second with programme start 10:00:00:00: representable, and both option values read them back *)
+Example C05_example_document_teletext : forall dsc, dsc = stl_s_dscLevel1 \/ dsc = stl_s_dscLevel2 ->
+  doc_repr_ttx ex_now (Some (ex_md_dsc dsc)) ex_items /\
+  exists out, write_stl ex_now (Some (ex_md_dsc dsc)) ex_items = Ok out /\
+    (exists d, read_stl false out = Ok d /\ rd_dsc d = dsc /\
+       map (fun x => (ri_st x, ri_en x, map (map eff) (ri_lines x))) (rd_items d) =
+       map (fun i => (wi_st i, wi_en i, map (map wflags) (wi_lines i))) ex_items) /\
+    (exists d, read_stl true out = Ok d /\ rd_tcp d = 0%Z /\
+       map (fun x => (ri_st x, ri_en x)) (rd_items d) = map (fun i => (wi_st i + 10 * hour_ns, wi_en i + 10 * hour_ns)%Z) ex_items).
+Proof. intros dsc Hd. split; [exact (ex_doc_repr_ttx dsc Hd) | exact (ex_doc_ttx_roundtrip dsc Hd)]. Qed.
+Print Assumptions C05_read_ignore.
+Print Assumptions C05_write_read_open_ignore.
+Print Assumptions C05_write_read_teletext_ignore.
+Print Assumptions C05_rewrite_keeps_timecodes_open.
+Print Assumptions C05_rewrite_keeps_timecodes_teletext.
+Print Assumptions C05_example_document_teletext.
